@@ -393,3 +393,137 @@ Print Assumptions c02_from_circuit_after_legalization.
 Print Assumptions c02_from_circuit_norows_orig_refuted.
 Print Assumptions c02_from_circuit_orientation_refuted.
 Print Assumptions c02_from_circuit_overlapping_rows_refuted.
+
+(* ======================================================================================== *)
+(* C02 / C04 -- the composition: the CIRCUIT that detailed placement exposes (not only the row structure)
+   is legal, leaves the cells it does not optimise exactly where they were, and carries the prescribed
+   orientations.
+
+   Models: DetailedInit.from_circuit (DetailedPlacement::fromIspdCircuit + constructor + check()),
+   Moves.v (the row structure and its operations; histories dop / run_dops of MovesOrientProofs.v: the
+   four operations swap / insert / unplace / place, performed when their guard holds and refused
+   otherwise, and shift passes DShift xs), DetailedExport.write_back (DetailedPlacement::exportPlacement,
+   what DetailedPlacer::callback does before every Detailed-step callback and what the caller receives on
+   return).  Proofs: DetailedExportProofs.v.
+
+     std_design c rh    the C01 domain (rows of one positive height rh, pairwise disjoint, not turned;
+                        movable cells of positive placed width, placed height a positive multiple of rh,
+                        not turned unless without polarity);
+     from_circuit c = DOk s   the constructor and check() accepted the circuit (they do whenever the
+                        circuit is legal and carries the orientations legalization leaves:
+                        c02_from_circuit_accepts_legal / c02_from_circuit_after_legalization); the C02
+                        theorems below need NO hypothesis on the orientations beyond this;
+     dshifts_ok s ops   every shift pass DShift xs of the history satisfies, in the state it is applied
+                        to, the guard Moves.shift_ok (the positional constraints handed to the network
+                        simplex; they follow from dual feasibility: c02_shift_dual_feasible_legal);
+     closed_dop         the optimiser's own moves: swap, insert, shift with ARBITRARY arguments (no raw
+                        unplace / place);
+     d_loose s' = []    no cell is between an unplace and its place (the C++ only exports between
+                        complete passes; c02_write_back_unplaced_refuted shows it cannot be dropped). *)
+From Coq Require Import List ZArith Lia Bool.
+Import ListNotations.
+Require Import CV.Orient CV.FreeSpace CV.Circuit CV.OrientProofs CV.Moves CV.MovesProofs CV.MovesOrientProofs.
+Require Import CV.Legalizer CV.LegalizerProofs CV.LegalizerSoundProofs.
+Require Import CV.DetailedInit CV.DetailedInitProofs CV.DetailedExport CV.DetailedExportProofs.
+
+
+(* [F on the stated domain] C02, main clause.  For every legal circuit of the C01 domain, the structure
+   s that fromIspdCircuit builds from it, and EVERY history of moves and shift passes (shift passes
+   satisfying their constraints) after which no cell is unplaced: the circuit obtained by
+   exportPlacement satisfies `legal`, the legality specification of C01 -- bottom edges on row
+   boundaries, every row-high strip inside one free segment of the C15 model, movable cells pairwise
+   disjoint (kept cells against each other AND against the movable cells the structure does not hold) *)
+Theorem c02_write_back_legal : forall c rh s ops,
+  std_design c rh -> legal c -> from_circuit c = DOk s ->
+  dshifts_ok s ops -> d_loose (run_dops s ops) = [] ->
+  legal (write_back c (run_dops s ops)).
+Proof. exact write_back_legal. Qed.
+
+(* [F on the stated domain] the same for histories made of the optimiser's own moves (swap, insert,
+   shift) with arbitrary arguments: they never leave a cell unplaced *)
+Theorem c02_write_back_legal_optimiser_moves : forall c rh s ops,
+  std_design c rh -> legal c -> from_circuit c = DOk s ->
+  forallb closed_dop ops = true -> dshifts_ok s ops ->
+  legal (write_back c (run_dops s ops)).
+Proof. exact write_back_legal_closed. Qed.
+
+(* [F on the stated domain] C02, "cells it does not optimise stay exactly where legalization put them":
+   for EVERY history (no hypothesis on the shifts or on unplaced cells) the rows are the same, every
+   cell keeps its size, polarity and flags, and every cell that is fixed or not exactly one row high
+   (multi-row cells, movable macros) is IDENTICAL -- position and orientation included -- in the
+   exposed circuit *)
+Theorem c02_write_back_frame : forall c rh s ops,
+  std_design c rh -> legal c -> from_circuit c = DOk s ->
+  rows (write_back c (run_dops s ops)) = rows c /\
+  Forall2 same_frame (cells c) (cells (write_back c (run_dops s ops))) /\
+  (forall i k, nth_error (cells c) i = Some k -> (c_fixed k = true \/ placed_h k <> rh) ->
+               nth_error (cells (write_back c (run_dops s ops))) i = Some k).
+Proof. exact write_back_frame. Qed.
+
+(* [F on the stated domain] "at each callback": the C++ exports into the same circuit again and again;
+   exporting the current state into a circuit that already received an earlier state of the run gives
+   exactly write_back of the ORIGINAL circuit (so the theorems above speak about every callback) *)
+Theorem c02_write_back_twice : forall c rh s ops1 ops2,
+  std_design c rh -> legal c -> from_circuit c = DOk s -> d_loose (run_dops s ops2) = [] ->
+  write_back (write_back c (run_dops s ops1)) (run_dops s ops2) = write_back c (run_dops s ops2).
+Proof. exact write_back_twice. Qed.
+
+(* [R, about states the C++ never exposes] with a cell unplaced the structure does not describe a
+   placement: unplace(1) then insert(5, row 0) puts cell 5 where the (stale) position of cell 1 is *)
+Theorem c02_write_back_unplaced_refuted :
+  exists s, from_circuit ex_dinit = DOk s /\
+    d_loose (run_dops s [DMop (MUnplace 1); DMop (MInsert 5 0 None)]) <> [] /\
+    legalb (write_back ex_dinit (run_dops s [DMop (MUnplace 1); DMop (MInsert 5 0 None)])) = false.
+Proof. exact write_back_unplaced_refuted. Qed.
+
+
+(* [F on the stated domain] C02 + C04 in one statement, in the form of the property: after legalization
+   (legal c, orient_ok before c) fromIspdCircuit does not fail ("never fails on a circuit that
+   legalization accepts"), and whatever the optimiser then does with swaps, inserts and shift passes
+   (arbitrary arguments; shift passes satisfying their constraints) the circuit it exposes is legal,
+   has the cells it does not optimise exactly where legalization put them, and -- when the rows have a
+   known orientation -- carries the prescribed orientations *)
+Theorem c02_detailed_placement_exposes_legal_circuits : forall before c rh,
+  std_design c rh -> legal c -> orient_ok before c ->
+  exists s, from_circuit c = DOk s /\
+    forall ops, forallb closed_dop ops = true -> dshifts_ok s ops ->
+      legal (write_back c (run_dops s ops)) /\
+      (forall i k, nth_error (cells c) i = Some k -> (c_fixed k = true \/ placed_h k <> rh) ->
+                   nth_error (cells (write_back c (run_dops s ops))) i = Some k) /\
+      ((forall r, In r (rows c) -> ro r <> oUNKNOWN) -> orient_ok before (write_back c (run_dops s ops))).
+Proof. exact detailed_exposes_legal. Qed.
+
+(* non-vacuity: ex_dinit (two rows N / FS; a fixed obstruction; a fixed non-obstruction; cell 4 two rows
+   high; cell 7 turned; row-high cells 1 2 3 5 8 with polarities SAME NW ANY OPPOSITE SAME).  History:
+   swap(1,5) across the rows (both change orientation), insert(3, row 3) refused (no room), a shift of
+   cell 2, insert(8, row 2) from the FS row to the N row, insert(2, row 3) refused (NW on an FS row).
+   Every hypothesis holds; the exposed circuit is computed: cells 1, 5, 8 changed row, 2 moved, the
+   fixed cells 0 and 6, the two-row cell 4 and the refused cell 3 are where they were *)
+Definition ex_compose_ops : list dop :=
+  [DMop (MSwap 1 5); DMop (MInsert 3 3 (Some 7%nat)); DShift [(2%nat, 4)]; DMop (MInsert 8 2 None);
+   DMop (MInsert 2 3 None)].
+
+Example c02_compose_nonvacuous :
+  std_design ex_dinit 2 /\ legal ex_dinit /\ orient_ok ex_dinit ex_dinit /\
+  (forall r, In r (rows ex_dinit) -> ro r <> oUNKNOWN) /\
+  exists s, from_circuit ex_dinit = DOk s /\ forallb closed_dop ex_compose_ops = true /\ dshifts_ok s ex_compose_ops /\
+    map (fun k => (c_x k, c_y k, c_o k)) (cells ex_dinit) =
+      [(8, 0, oN); (0, 0, oN); (5, 0, oN); (10, 0, oN); (16, 0, oN); (12, 2, oN); (1, 0, oN); (0, 2, oE); (18, 2, oFS)] /\
+    map (fun k => (c_x k, c_y k, c_o k)) (cells (write_back ex_dinit (run_dops s ex_compose_ops))) =
+      [(8, 0, oN); (8, 2, oFS); (4, 0, oN); (10, 0, oN); (16, 0, oN); (1, 0, oFS); (1, 0, oN); (0, 2, oE); (18, 0, oN)] /\
+    legalb (write_back ex_dinit (run_dops s ex_compose_ops)) = true /\
+    orient_okb ex_dinit (write_back ex_dinit (run_dops s ex_compose_ops)) = true.
+Proof.
+  split; [exact ex_dinit_std|]. split; [apply CircuitProofs.legalb_correct; vm_compute; reflexivity|].
+  split; [apply orient_okb_correct; vm_compute; reflexivity|].
+  split; [intros r [<-|[<-|[]]]; discriminate|].
+  eexists. split; [vm_compute; reflexivity|]. split; [reflexivity|]. split; [vm_compute; repeat split; reflexivity|].
+  vm_compute. repeat split; reflexivity.
+Qed.
+
+Print Assumptions c02_write_back_legal.
+Print Assumptions c02_detailed_placement_exposes_legal_circuits.
+Print Assumptions c02_write_back_legal_optimiser_moves.
+Print Assumptions c02_write_back_frame.
+Print Assumptions c02_write_back_twice.
+Print Assumptions c02_write_back_unplaced_refuted.
